@@ -182,6 +182,14 @@ def gen_condorder(rng, pid):
     lines.append("end")
     return "\n".join(lines)
 
+SHAPES = {
+    True: dict(np=4, caps=dict(res=1, pool=2, buf=2, oq=1, pq=1), prio=[0, 0, 1, 2], uev=None),
+    2:    dict(np=5, caps=dict(res=2, pool=3, buf=3, oq=2, pq=2), prio=[0, 1, 1, 0, 2], uev="uev 1 1 1 : csig"),
+}
+
+def gen_soupfix2(rng, pid):
+    return gen_soup(rng, pid, fixed=2)
+
 def gen_soupfix(rng, pid):
     """the soup with a FIXED shape (4 processes of priorities 0,0,1,2, all started, fixed capacities, no user events), so that
     the kernel MODEL can be run on the same programs with one set of constants (conformance of the model, KernelConf.tla)"""
@@ -196,7 +204,7 @@ def gen_soup(rng, pid, fixed=False):
     bufunit = 62 if rng.random() < 0.2 else 0
     if bufunit: caps["buf"] = rng.choice([2, 3])
     if fixed:
-        np_, caps, bufunit = 4, dict(res=1, pool=2, buf=2, oq=1, pq=1), 0
+        np_, caps, bufunit = SHAPES[fixed]["np"], dict(SHAPES[fixed]["caps"]), 0
     lines = ["prog %d" % pid, "cap res=%d pool=%d buf=%d oq=%d pq=%d bufunit=%d" % (caps["res"], caps["pool"], caps["buf"], caps["oq"], caps["pq"], bufunit)]
     allops = ["hold"] * 6 + ["tadd"] * 3 + ["tcancel", "tclear", "wproc", "wproc", "wevent", "intr", "intr", "stop", "exit", "yield", "resume", "prio", "prio", "start",
               "acq", "acq", "acq", "rel", "rel", "pre", "pacq", "pacq", "prel", "prel", "ppre", "bput", "bput", "bget", "bget", "qput", "qget", "pqput", "pqget",
@@ -214,8 +222,10 @@ def gen_soup(rng, pid, fixed=False):
             if op in ("acq", "pre") and rng.random() < 0.7: code += ["hold %d" % rng.choice([0, 1, 2]), "rel " + ins.split()[1]]
             if op in ("pacq", "ppre") and rng.random() < 0.7: code += ["hold %d" % rng.choice([0, 1]), "prel " + ins.split()[1]]
         pr_, au_ = rng.choice([0, 0, 1, 2, 3]), (1 if (p == 1 or rng.random() < 0.85) else 0)
-        if fixed: pr_, au_ = [0, 0, 1, 2][p - 1], 1
+        if fixed: pr_, au_ = SHAPES[fixed]["prio"][p - 1], 1
         lines.append("proc %d %d %d : %s" % (p, pr_, au_, " ; ".join(code[:12])))
+    if fixed and SHAPES[fixed]["uev"]:
+        lines.append(SHAPES[fixed]["uev"])
     if not fixed and rng.random() < 0.7:
         q = rng.randint(1, np_)
         act = rng.choice(["nop", "intr %d -2 0" % q, "intr %d 9 5" % q, "stop %d 5" % q, "csig", "setflag 0 1", "setflag 1 1", "prio %d 3" % q, "start %d" % q])
@@ -250,6 +260,11 @@ def main():
         rng = random.Random(seed * 15485863 + 11)
         for i in range(count):
             print(gen_condorder(rng, i + 1))
+        return
+    if profile == "soupfix2":
+        rng = random.Random(seed * 67867967 + 7)
+        for i in range(count):
+            print(gen_soupfix2(rng, i + 1))
         return
     if profile == "soupfix":
         rng = random.Random(seed * 49979687 + 5)
